@@ -85,6 +85,7 @@ type Conn struct {
 	PlainFinished bool // set by DevPlainFinished: the caller must not switch the outgoing keys
 	SentUnits     []string
 	closed        bool
+	TLS12         bool // message formats of TLS 1.2 (set by the handshake functions)
 }
 
 // NewConn wraps a transport.
@@ -328,6 +329,9 @@ func (c *Conn) WriteHandshake(typ uint8, body []byte) error {
 			wire = Handshake(typ, d.RecBody)
 		case DevLenField:
 			fields := LengthFields(typ, body)
+			if c.TLS12 {
+				fields = LengthFields12(typ, body)
+			}
 			if len(fields) > 0 {
 				f := fields[d.N%len(fields)]
 				b := append([]byte(nil), body...)
@@ -437,6 +441,7 @@ func (c *Conn) CloseNotify() error {
 type Identity struct {
 	Chain [][]byte
 	Key   *big.Int
+	RSA   *RSAKey // TLS 1.2 identities
 }
 
 // ClientCfg configures the reference client.
@@ -458,7 +463,9 @@ type ClientCfg struct {
 	OmitCertVerify bool
 	CertVerifyKey  *big.Int // sign CertificateVerify with this key instead of Cert.Key
 	CertVerifyOver []byte   // sign over this transcript instead of the real one
+	CertVerifyRSA  *RSAKey  // TLS 1.2: sign CertificateVerify with this key instead of Cert.RSA
 	SkipSKXCheck   bool
+	NoSigAlgs      bool // TLS 1.2: do not send signature_algorithms
 	// IgnoreCertRequest: behave as if no CertificateRequest had been received (no
 	// Certificate message at all, no CertificateVerify), with a consistent transcript.
 	IgnoreCertRequest bool
@@ -534,6 +541,12 @@ func ClientHandshake(c *Conn, cfg *ClientCfg) (*Result, error) {
 	if vers == 0 && !cfg.VersSet {
 		vers = VersionGM
 	}
+	if vers >= 0x0300 && c.RecVers == VersionGM {
+		c.RecVers = vers
+		if vers > VersionTLS12 {
+			c.RecVers = VersionTLS12
+		}
+	}
 	ch := &ClientHello{Vers: vers, Random: randBytes(cfg.Rand, 32), Suites: cfg.Suites, Compression: cfg.Compress}
 	if ch.Compression == nil {
 		ch.Compression = []byte{0}
@@ -545,6 +558,9 @@ func ClientHandshake(c *Conn, cfg *ClientCfg) (*Result, error) {
 		ch.SessionID = randBytes(cfg.Rand, 16)
 	}
 	ch.Exts = append(ch.Exts, Ext{ExtSessionTicket, cfg.Ticket})
+	if vers >= VersionTLS12 && !cfg.NoSigAlgs {
+		ch.Exts = append(ch.Exts, Ext{ExtSignatureAlgorithms, SigAlgsData(SigRSAPKCS1SHA256)})
+	}
 	ch.Exts = append(ch.Exts, cfg.ExtraExts...)
 	res.CH = ch
 	if err := c.WriteHandshake(HsClientHello, ch.Marshal()); err != nil {
@@ -566,8 +582,16 @@ func ClientHandshake(c *Conn, cfg *ClientCfg) (*Result, error) {
 	if _, _, _, ok := SuiteParams(sh.Suite); !ok {
 		return res, fmt.Errorf("reftls client: server selected suite %04x", sh.Suite)
 	}
+	gm := Suite(sh.Suite).GM
+	if !gm {
+		if sh.Vers != VersionTLS12 {
+			return res, fmt.Errorf("reftls client: server selected version %04x with a TLS 1.2 suite", sh.Vers)
+		}
+		c.TLS12 = true
+		c.RecVers = VersionTLS12
+	}
 	readFinished := func() error {
-		want := FinishedData(res.Master, false, c.Transcript)
+		want := FinishedData(sh.Suite, res.Master, false, c.Transcript)
 		m, err := c.ReadHandshake()
 		if err != nil {
 			return err
@@ -590,7 +614,7 @@ func ClientHandshake(c *Conn, cfg *ClientCfg) (*Result, error) {
 				return err
 			}
 		}
-		return c.WriteHandshake(HsFinished, FinishedData(res.Master, true, c.Transcript))
+		return c.WriteHandshake(HsFinished, FinishedData(sh.Suite, res.Master, true, c.Transcript))
 	}
 	// resumption?
 	if cfg.Ticket != nil && len(ch.SessionID) > 0 && bytes.Equal(sh.SessionID, ch.SessionID) {
@@ -634,32 +658,42 @@ func ClientHandshake(c *Conn, cfg *ClientCfg) (*Result, error) {
 	if res.ServerCerts, err = ParseCertificate(m.Body); err != nil {
 		return res, err
 	}
-	if len(res.ServerCerts) < 2 {
+	if gm && len(res.ServerCerts) < 2 {
 		return res, errors.New("reftls client: fewer than two server certificates")
 	}
-	if m, err = c.ReadHandshake(); err != nil {
-		return res, err
+	if !gm && len(res.ServerCerts) < 1 {
+		return res, errors.New("reftls client: empty server certificate list")
 	}
-	if m.Type != HsServerKeyExchange {
-		return res, fmt.Errorf("reftls client: got %s, want ServerKeyExchange", HsName(m.Type))
-	}
-	if res.SKXSig, err = ParseVec16Body(m.Body); err != nil {
-		return res, err
-	}
-	if !cfg.SkipSKXCheck {
-		sp, err := PubFromCert(res.ServerCerts[0])
-		if err != nil {
+	if gm {
+		if m, err = c.ReadHandshake(); err != nil {
 			return res, err
 		}
-		if !SM2Verify(sp, SKXSignedData(ch.Random, sh.Random, res.ServerCerts[1]), res.SKXSig) {
-			return res, errors.New("reftls client: ServerKeyExchange signature invalid")
+		if m.Type != HsServerKeyExchange {
+			return res, fmt.Errorf("reftls client: got %s, want ServerKeyExchange", HsName(m.Type))
+		}
+		if res.SKXSig, err = ParseVec16Body(m.Body); err != nil {
+			return res, err
+		}
+		if !cfg.SkipSKXCheck {
+			sp, err := PubFromCert(res.ServerCerts[0])
+			if err != nil {
+				return res, err
+			}
+			if !SM2Verify(sp, SKXSignedData(ch.Random, sh.Random, res.ServerCerts[1]), res.SKXSig) {
+				return res, errors.New("reftls client: ServerKeyExchange signature invalid")
+			}
 		}
 	}
 	if m, err = c.ReadHandshake(); err != nil {
 		return res, err
 	}
 	if m.Type == HsCertificateRequest {
-		if res.CertReq, err = ParseCertificateRequest(m.Body); err != nil {
+		if gm {
+			res.CertReq, err = ParseCertificateRequest(m.Body)
+		} else {
+			res.CertReq, err = ParseCertificateRequest12(m.Body)
+		}
+		if err != nil {
 			return res, err
 		}
 		if m, err = c.ReadHandshake(); err != nil {
@@ -686,22 +720,32 @@ func ClientHandshake(c *Conn, cfg *ClientCfg) (*Result, error) {
 	if pre == nil {
 		pre = append([]byte{byte(vers >> 8), byte(vers)}, randBytes(cfg.Rand, 46)...)
 	}
-	ep, err := PubFromCert(res.ServerCerts[1])
-	if err != nil {
-		return res, err
-	}
 	var enc []byte
-	for {
-		var ok bool
-		if enc, ok = SM2Encrypt(ep, pre, randScalar(cfg.Rand)); ok {
-			break
+	if gm {
+		ep, err := PubFromCert(res.ServerCerts[1])
+		if err != nil {
+			return res, err
+		}
+		for {
+			var ok bool
+			if enc, ok = SM2Encrypt(ep, pre, randScalar(cfg.Rand)); ok {
+				break
+			}
+		}
+	} else {
+		n, e, err := RSAPubFromCert(res.ServerCerts[0])
+		if err != nil {
+			return res, err
+		}
+		if enc, err = RSAEncrypt(n, e, pre, cfg.Rand); err != nil {
+			return res, err
 		}
 	}
 	res.CKXBody = Vec16Body(enc)
 	if err := c.WriteHandshake(HsClientKeyExchange, res.CKXBody); err != nil {
 		return res, err
 	}
-	res.Master = MasterSecret(pre, ch.Random, sh.Random)
+	res.Master = MasterSecret(sh.Suite, pre, ch.Random, sh.Random)
 	if sentCert && !cfg.OmitCertVerify {
 		key := cfg.Cert.Key
 		if cfg.CertVerifyKey != nil {
@@ -711,15 +755,29 @@ func ClientHandshake(c *Conn, cfg *ClientCfg) (*Result, error) {
 		if cfg.CertVerifyOver != nil {
 			over = cfg.CertVerifyOver
 		}
-		h := refsm3.Sum(over)
-		var sig []byte
-		for {
-			var ok bool
-			if sig, ok = SM2Sign(key, h[:], randScalar(cfg.Rand)); ok {
-				break
+		if gm {
+			if key == nil {
+				return res, errors.New("reftls client: no SM2 key for CertificateVerify")
 			}
+			h := refsm3.Sum(over)
+			var sig []byte
+			for {
+				var ok bool
+				if sig, ok = SM2Sign(key, h[:], randScalar(cfg.Rand)); ok {
+					break
+				}
+			}
+			res.CVBody = Vec16Body(sig)
+		} else {
+			rk := cfg.Cert.RSA
+			if cfg.CertVerifyRSA != nil {
+				rk = cfg.CertVerifyRSA
+			}
+			if rk == nil {
+				return res, errors.New("reftls client: no RSA key for CertificateVerify")
+			}
+			res.CVBody = CertVerify12Body(SigRSAPKCS1SHA256, RSASignSHA256(rk, over))
 		}
-		res.CVBody = Vec16Body(sig)
 		if err := c.WriteHandshake(HsCertificateVerify, res.CVBody); err != nil {
 			return res, err
 		}
@@ -772,6 +830,7 @@ type ServerCfg struct {
 	Vers         uint16
 	Compression  uint8
 	VerifyClient bool // verify CertificateVerify (honest server); result in Result.PeerFinOK
+	TLS12        bool // speak TLS 1.2 even when the selected suite is unknown to the reference
 	// IgnoreClientFinished: an impostor without the pre-master cannot read the
 	// client's Finished; it skips one record and answers with its own Finished.
 	IgnoreClientFinished bool
@@ -806,9 +865,22 @@ func ServerHandshake(c *Conn, cfg *ServerCfg) (*Result, error) {
 		c.WriteRecord(RecAlert, []byte{AlertFatal, AlertHandshakeFailure})
 		return res, errors.New("reftls server: no common suite")
 	}
+	gm := !cfg.TLS12
+	if d := Suite(suite); d != nil && !cfg.TLS12 {
+		gm = d.GM
+	}
 	vers := cfg.Vers
 	if vers == 0 {
 		vers = VersionGM
+		if !gm {
+			vers = VersionTLS12
+		}
+	}
+	if !gm {
+		c.TLS12 = true
+	}
+	if vers >= 0x0300 {
+		c.RecVers = vers
 	}
 	sh := &ServerHello{Vers: vers, Random: randBytes(cfg.Rand, 32), SessionID: randBytes(cfg.Rand, 32), Suite: suite, Compression: cfg.Compression}
 	res.SH = sh
@@ -818,14 +890,18 @@ func ServerHandshake(c *Conn, cfg *ServerCfg) (*Result, error) {
 	}
 	list := cfg.CertList
 	if list == nil {
-		list = append(append([][]byte(nil), cfg.Sign.Chain[0]), cfg.Enc.Chain[0])
-		list = append(list, cfg.Sign.Chain[1:]...)
+		if gm {
+			list = append(append([][]byte(nil), cfg.Sign.Chain[0]), cfg.Enc.Chain[0])
+			list = append(list, cfg.Sign.Chain[1:]...)
+		} else {
+			list = cfg.Sign.Chain
+		}
 	}
 	res.ServerCerts = list
 	if err := c.WriteHandshake(HsCertificate, MarshalCertificate(list)); err != nil {
 		return res, err
 	}
-	if !cfg.OmitSKX {
+	if !cfg.OmitSKX && gm {
 		sig := cfg.SKXRaw
 		if sig == nil {
 			cr, sr := ch.Random, sh.Random
@@ -855,7 +931,12 @@ func ServerHandshake(c *Conn, cfg *ServerCfg) (*Result, error) {
 	if cfg.RequestCert {
 		cr := &CertificateRequest{Types: []byte{1, 64}, CAs: cfg.CAs}
 		res.CertReq = cr
-		if err := c.WriteHandshake(HsCertificateRequest, cr.Marshal()); err != nil {
+		body := cr.Marshal()
+		if !gm {
+			cr.SigAlgs = []uint16{SigRSAPKCS1SHA256}
+			body = cr.Marshal12()
+		}
+		if err := c.WriteHandshake(HsCertificateRequest, body); err != nil {
 			return res, err
 		}
 	}
@@ -883,7 +964,13 @@ func ServerHandshake(c *Conn, cfg *ServerCfg) (*Result, error) {
 		return res, err
 	}
 	var pre []byte
-	if cfg.Enc != nil && cfg.Enc.Key != nil {
+	if !gm && cfg.Sign != nil && cfg.Sign.RSA != nil {
+		var ok bool
+		if pre, ok = RSADecrypt(cfg.Sign.RSA, enc); !ok || len(pre) != 48 {
+			c.WriteRecord(RecAlert, []byte{AlertFatal, AlertDecryptError})
+			return res, errors.New("reftls server: cannot decrypt the pre-master secret")
+		}
+	} else if gm && cfg.Enc != nil && cfg.Enc.Key != nil {
 		var ok bool
 		if pre, ok = SM2Decrypt(cfg.Enc.Key, enc); !ok {
 			c.WriteRecord(RecAlert, []byte{AlertFatal, AlertDecryptError})
@@ -892,7 +979,7 @@ func ServerHandshake(c *Conn, cfg *ServerCfg) (*Result, error) {
 	} else {
 		pre = cfg.GuessPre
 	}
-	res.Master = MasterSecret(pre, ch.Random, sh.Random)
+	res.Master = MasterSecret(suite, pre, ch.Random, sh.Random)
 	transcriptBeforeCV := append([]byte(nil), c.Transcript...)
 	if m, err = c.ReadHandshake(); err != nil {
 		return res, err
@@ -900,17 +987,31 @@ func ServerHandshake(c *Conn, cfg *ServerCfg) (*Result, error) {
 	if m.Type == HsCertificateVerify {
 		res.CVBody = m.Body
 		if cfg.VerifyClient && len(res.ClientCerts) > 0 {
-			sig, err := ParseVec16Body(m.Body)
-			if err != nil {
-				return res, err
-			}
-			cp, err := PubFromCert(res.ClientCerts[0])
-			if err != nil {
-				return res, err
-			}
-			h := refsm3.Sum(transcriptBeforeCV)
-			if !SM2Verify(cp, h[:], sig) {
-				return res, errors.New("reftls server: CertificateVerify invalid")
+			if gm {
+				sig, err := ParseVec16Body(m.Body)
+				if err != nil {
+					return res, err
+				}
+				cp, err := PubFromCert(res.ClientCerts[0])
+				if err != nil {
+					return res, err
+				}
+				h := refsm3.Sum(transcriptBeforeCV)
+				if !SM2Verify(cp, h[:], sig) {
+					return res, errors.New("reftls server: CertificateVerify invalid")
+				}
+			} else {
+				alg, sig, err := ParseCertVerify12(m.Body)
+				if err != nil {
+					return res, err
+				}
+				n, e, err := RSAPubFromCert(res.ClientCerts[0])
+				if err != nil {
+					return res, err
+				}
+				if alg != SigRSAPKCS1SHA256 || !RSAVerifySHA256(n, e, transcriptBeforeCV, sig) {
+					return res, errors.New("reftls server: CertificateVerify invalid")
+				}
 			}
 		}
 		if m, err = c.ReadHandshake(); err != nil {
@@ -925,12 +1026,12 @@ func ServerHandshake(c *Conn, cfg *ServerCfg) (*Result, error) {
 			return res, err
 		}
 		// pretend we saw the Finished the client would send under our guessed secret
-		c.Transcript = append(c.Transcript, Handshake(HsFinished, FinishedData(res.Master, true, c.Transcript))...)
+		c.Transcript = append(c.Transcript, Handshake(HsFinished, FinishedData(suite, res.Master, true, c.Transcript))...)
 	} else {
 		if err := c.switchKeys(res.Master, ch.Random, sh.Random, suite, false, false); err != nil {
 			return res, err
 		}
-		want := FinishedData(res.Master, true, c.Transcript)
+		want := FinishedData(suite, res.Master, true, c.Transcript)
 		if m, err = c.ReadHandshake(); err != nil {
 			return res, err
 		}
@@ -951,7 +1052,7 @@ func ServerHandshake(c *Conn, cfg *ServerCfg) (*Result, error) {
 			return res, err
 		}
 	}
-	if err := c.WriteHandshake(HsFinished, FinishedData(res.Master, false, c.Transcript)); err != nil {
+	if err := c.WriteHandshake(HsFinished, FinishedData(suite, res.Master, false, c.Transcript)); err != nil {
 		return res, err
 	}
 	res.Complete = true
